@@ -33,7 +33,8 @@ def _rel(order, op):
 
 
 class Interp:
-    def __init__(self, body, orders=None, call_hook=None, max_steps=4000):
+    def __init__(self, body, orders=None, call_hook=None, max_steps=4000, fa=None):
+        self.fa = fa                        # facts: lets promoted constants (`&Enum::Variant`) be evaluated
         self.b = body
         self.orders = orders or {}          # (symA, symB) -> "L" | "E" | "G"
         self.hook = call_hook
@@ -55,8 +56,8 @@ class Interp:
         raise Unknown("order of %s and %s is not known" % (a, b))
 
     def deref(self, v):
-        while v[0] == "ref":
-            v = v[1]
+        while v[0] in ("ref", "mref"):
+            v = v[1] if v[0] == "ref" else self.read(v[1], [v[2]] + list(v[3]))
         return v
 
     def read(self, env, place):
@@ -104,6 +105,16 @@ class Interp:
                 return ("int", c["v"])
             if ty == "()":
                 return ("unit",)
+            txt = (c.get("c") or "").replace("const ", "").strip()
+            if "::" in txt and txt.split("::")[-1][:1].isupper() and txt.split("::")[-1].isidentifier() and \
+                    ty.split("<")[0].endswith("::".join(txt.split("::")[-2:-1])):
+                return ("enum", txt.split("::")[-1], [])        # a unit variant written as a constant
+            if "promoted[" in txt and self.fa is not None:
+                import re as _re
+                for key in (self.b.crate + "::" + txt, self.b.crate + "::" + _re.sub(r"::<[^>]*>", "", txt)):
+                    pb = self.fa.promoted.get(key)
+                    if pb is not None:
+                        return Interp(pb, self.orders, None, 200, self.fa).run({})
             raise Unknown("constant %s" % c.get("c"))
         pl = cfg.op_place(op)
         if pl is None:
@@ -114,8 +125,39 @@ class Interp:
         if len(place) == 1:
             env[place[0]] = v
             return
-        # field of a tuple temp (checked arithmetic results) or deref of a plain reference: not needed for tables
-        raise Unknown("write through projection %s" % place)
+        # `*r = v` / `(*r as V).0 = v` through a unique reference, `(l as V).0 = v`, `l.n = v`
+        env[place[0]] = self._set_in(env.get(place[0]), list(place[1:]), v, place)
+
+    def _set_in(self, cur, proj, v, place):
+        if not proj:
+            return v
+        e = proj[0]
+        if cur is None:
+            raise Unknown("write into unset %s" % (place,))
+        if e == "*":
+            if cur[0] != "mref":
+                raise Unknown("write through %s" % (place,))
+            self.write(cur[1], [cur[2]] + list(cur[3]) + proj[1:], v)
+            return cur
+        if isinstance(e, str) and e.startswith("as "):
+            if cur[0] != "enum" or cur[1] != e[3:]:
+                raise Unknown("write through downcast %s" % (place,))
+            return self._set_in(cur, proj[1:], v, place)
+        if isinstance(e, str) and e.startswith("."):
+            f = e[1:]
+            if cur[0] == "enum" and f.isdigit() and int(f) < len(cur[2]):
+                fs = list(cur[2])
+                fs[int(f)] = self._set_in(fs[int(f)], proj[1:], v, place)
+                return ("enum", cur[1], fs)
+            if cur[0] == "tuple" and f.isdigit() and int(f) < len(cur[1]):
+                fs = list(cur[1])
+                fs[int(f)] = self._set_in(fs[int(f)], proj[1:], v, place)
+                return ("tuple", fs)
+            if cur[0] == "struct" and f in cur[1]:
+                d = dict(cur[1])
+                d[f] = self._set_in(d[f], proj[1:], v, place)
+                return ("struct", d)
+        raise Unknown("write through projection %s" % (place,))
 
     # ---- statements -------------------------------------------------------------------------------------------
     def rvalue(self, env, r):
@@ -128,7 +170,15 @@ class Interp:
                 return ("int", int(v[1])) if r.get("ty", "") != "bool" else v
             return v
         if k == "ref":
-            return ("ref", self.read(env, r["p"]))
+            pp = r["p"]
+            if r.get("mut"):
+                # unique reference: writes go through to the local (or to the place an outer unique reference names)
+                if len(pp) >= 2 and pp[1] == "*" and env.get(pp[0], ("",))[0] == "mref" and "*" not in pp[2:]:
+                    base = env[pp[0]]
+                    return ("mref", base[1], base[2], tuple(base[3]) + tuple(pp[2:]))
+                if "*" not in pp[1:]:
+                    return ("mref", env, pp[0], tuple(pp[1:]))
+            return ("ref", self.read(env, pp))
         if k == "un":
             v = self.deref(self.operand(env, r["a"]))
             if r["op"] == "Not" and v[0] == "bool":
@@ -141,6 +191,8 @@ class Interp:
             op = r["op"]
             if op in ("Lt", "Le", "Gt", "Ge", "Eq", "Ne"):
                 if a[0] == "enum" and b[0] == "enum" and op in ("Eq", "Ne"):
+                    return ("bool", (a[1] == b[1]) == (op == "Eq"))
+                if a[0] == "sym" and b[0] == "sym" and a[1].startswith("discr:") and b[1].startswith("discr:") and op in ("Eq", "Ne"):
                     return ("bool", (a[1] == b[1]) == (op == "Eq"))
                 return ("bool", _rel(self.order(a, b), op))
             base = op.replace("WithOverflow", "").replace("Unchecked", "")
@@ -202,6 +254,10 @@ class Interp:
                 return ("enum", "Break", [("enum", a[1], list(a[2]))])
         if d.endswith(("From::from", "Into::into", "Clone::clone", "Deref::deref")) and len(args) == 1:
             return self.deref(self.operand(env, args[0])) if d.endswith("Clone::clone") else self.operand(env, args[0])
+        if last == "discriminant_value" and len(args) == 1:
+            a = self.deref(self.operand(env, args[0]))
+            if a[0] == "enum":
+                return ("sym", "discr:%s" % a[1])       # only ever compared for equality
         if d.endswith("ops::Not::not"):
             a = self.deref(self.operand(env, args[0]))
             if a[0] == "bool":
@@ -209,11 +265,16 @@ class Interp:
         raise Unknown("call to %s" % (n or d))
 
     # ---- driver -----------------------------------------------------------------------------------------------
-    def run(self, env, start=0):
-        """Interpret from block `start` until `return`; returns the abstract value of _0."""
+    def run(self, env, start=0, stop_at=None):
+        """Interpret from block `start` until `return`; returns the abstract value of _0 (with `stop_at`: the
+        environment on arrival at that block)."""
         env = dict(env)
         bb = start
+        first = True
         for _ in range(self.max_steps):
+            if stop_at is not None and bb == stop_at and not first:
+                return env
+            first = False
             blk = self.b.blocks[bb]
             for st in blk["s"]:
                 if "l" in st:
@@ -265,3 +326,18 @@ def show(v):
     if v[0] == "sym":
         return v[1]
     return str(v)
+
+
+def call_workspace(fa, interp, env, t, hook=None, depth=0):
+    """Interpret a call to a workspace function from its own body (arguments bound to its parameters)."""
+    from . import cfg as _c
+    n = _c.callee(t) or ""
+    cb = fa.body(n)
+    if cb is None or depth > 6:
+        return None
+    cenv = {}
+    for k, a in enumerate(t["a"]):
+        cenv[k + 1] = interp.operand(env, a)
+    sub = Interp(cb, interp.orders, (lambda i_, e_, t_: hook(i_, e_, t_, depth + 1)) if hook else None, interp.max_steps,
+                 interp.fa or fa)
+    return sub.run(cenv)
